@@ -51,6 +51,26 @@ Definition get_val (f : fref) (fv : fvec) : N :=
   | None => 0
   end.
 
+(* A Features object: the words and the feature map (one per face) they belong to; None = not yet bound, which is what
+   gr_featureval_clone(NULL) hands out.  applyValToFeature / getFeatureVal of a feature of face [face]: the range test comes first,
+   an unbound object is bound by the first SUCCESSFUL write, an object of another face refuses the write and reads as 0. *)
+Record fval := { fv_map : option N; fv_words : fvec }.
+Definition blank : fval := {| fv_map := None; fv_words := [] |}.
+Definition set_val_on (face : N) (f : fref) (v : N) (x : fval) : option fval :=
+  match set_val f v (fv_words x) with
+  | None => None
+  | Some w =>
+      match fv_map x with
+      | None => Some {| fv_map := Some face; fv_words := w |}
+      | Some m => if m =? face then Some {| fv_map := Some m; fv_words := w |} else None
+      end
+  end.
+Definition get_val_on (face : N) (f : fref) (x : fval) : N :=
+  match fv_map x with
+  | Some m => if m =? face then get_val f (fv_words x) else 0
+  | None => 0
+  end.
+
 (* ---------------------------------------------------------------- FeatureMap::readFeats *)
 Record featmap := { fm_feats : list fref; fm_defaults : fvec }.
 Inductive loadres (A : Type) := LTrap | LReject | LOk (a : A).
